@@ -33,9 +33,9 @@ theorem pol_pdf_eq (x s w : ℝ) (hs : 0 < s) :
   simp only [Pyx.cprobability.pol_pdf, sci_5_1, flt_c, flt_sqrt, flt_erf, Nat.cast_one, Nat.cast_ofNat]
   ring
 
-/-- polarity-probability likelihood of one station; at an amplitude of exactly zero the compiled
-    kernel returns 1/2 whatever the pick probabilities, the Python path `(p + n)/2` -/
-theorem pol_prob_pdf_eq (x p n w : ℝ) (h : x ≠ 0 ∨ p + n = 1) :
+/-- polarity-probability likelihood of one station, for every amplitude (at exactly zero both give `(p + n)/2`
+    since fix in `/repo`; before it the compiled kernel returned 1/2) -/
+theorem pol_prob_pdf_eq (x p n w : ℝ) :
     Pyx.cprobability.pol_prob_pdf x p n w = Polarity.polProbP x p n w := by
   simp only [Pyx.cprobability.pol_prob_pdf, Polarity.polProbP, Polarity.heav, sci_5_1, flt_c, flt_ltb, flt_eqb,
     flt_half, Nat.cast_one, Nat.cast_zero, decide_eq_true_eq, Left.neg_neg_iff, Left.neg_pos_iff]
@@ -43,9 +43,7 @@ theorem pol_prob_pdf_eq (x p n w : ℝ) (h : x ≠ 0 ∨ p + n = 1) :
   · simp only [hx, not_lt_of_gt hx, hx.ne, if_true, if_false]; ring
   · subst hx
     simp only [lt_irrefl, if_false, if_true]
-    rcases h with h | h
-    · exact absurd rfl h
-    · linear_combination (-1/2 : ℝ) * h
+    ring
   · simp only [hx, not_lt_of_gt hx, if_true, if_false]; ring
 
 /-- amplitude-ratio likelihood of one station (modelled amplitudes of either sign) -/
